@@ -154,7 +154,10 @@ def check_history(ctx, ops):
         if kind == "add":  # ["add", item] via add_note
             item = op[1]
             if item[0] == "pair":
-                ctx.ok("add_note", nc.add_note, item[1], item[2])
+                if k % 2:
+                    ctx.ok("add_note", lambda: nc.add_note(item[1], octave=item[2]))  # keyword form
+                else:
+                    ctx.ok("add_note", nc.add_note, item[1], item[2])
             else:
                 if item[0] == "triple":
                     item = ["pair"] + item[1:]
@@ -190,7 +193,10 @@ def check_history(ctx, ops):
             model.d = {p: v for p, v in model.d.items() if v[0] != op[1]}
             added, removed = [], True
         elif kind == "rm_name_oct":
-            ctx.ok("remove_note", nc.remove_note, op[1], op[2])
+            if k % 2:
+                ctx.ok("remove_note", lambda: nc.remove_note(op[1], octave=op[2]))  # keyword form
+            else:
+                ctx.ok("remove_note", nc.remove_note, op[1], op[2])
             model.d = {p: v for p, v in model.d.items() if not (v[0] == op[1] and v[1] == op[2])}
             added, removed = [], True
         elif kind == "rm_note":
